@@ -63,7 +63,7 @@ func genHostileCase(r *rand.Rand) Case {
 	d := []int{0, 1, 1, 1, 2}[r.IntN(5)]
 	for i := 0; i < d; i++ {
 		for try := 0; try < 8; try++ {
-			if def, ok := applyDefect(r, &c.PI); ok {
+			if def, ok := applyDefect(r, &c.PI, len(c.Defects) == 0); ok {
 				c.Defects = append(c.Defects, def)
 				break
 			}
@@ -75,7 +75,22 @@ func genHostileCase(r *rand.Rand) Case {
 // stress replaces variable values by strange but type-correct or garbage strings.
 func stress(r *rand.Rand, c *gen.PI) {
 	for _, v := range c.Prog.Vars {
+		// texts that reach the same parsers through meta()
+		if v.Fn == "meta" && len(v.Args) == 2 && v.Args[0].K == "acc" && v.Args[1].K == "str" && r.IntN(3) == 0 {
+			if t := fuzzText(r, v.Type); t != "" || v.Type == "number" {
+				if c.In.Meta[v.Args[0].S] == nil {
+					c.In.Meta[v.Args[0].S] = map[string]string{}
+				}
+				c.In.Meta[v.Args[0].S][v.Args[1].S] = t
+			}
+		}
+	}
+	for _, v := range c.Prog.Vars {
 		if v.Fn != "" || r.IntN(3) != 0 {
+			continue
+		}
+		if (v.Type == "number" || v.Type == "monetary" || v.Type == "portion") && r.IntN(2) == 0 {
+			c.In.Vars[v.Name] = fuzzText(r, v.Type)
 			continue
 		}
 		switch v.Type {
@@ -236,16 +251,36 @@ func otherAsset(a string) string {
 }
 
 var defectKinds = []string{
+	"fuzzed-variable-text", "fuzzed-variable-text",
 	"omit-variable", "illformed-variable", "undeclared-type", "unbound-variable", "unknown-function-statement",
 	"unknown-function-origin", "bad-arity", "wrong-type-expression", "negative-amount", "mismatched-asset",
 	"bad-allotment-sum", "zero-denominator-portion", "insufficient-funds", "missing-metadata", "negative-balance",
 	"overdraft-without-flag", "invalid-send-all-source",
 }
 
-func applyDefect(r *rand.Rand, c *gen.PI) (Defect, bool) {
+func applyDefect(r *rand.Rand, c *gen.PI, first bool) (Defect, bool) {
 	kind := defectKinds[r.IntN(len(defectKinds))]
 	d := Defect{Name: kind, Certain: true}
 	switch kind {
+	case "fuzzed-variable-text":
+		// text drawn around the accepted grammar: it may well be valid (then nothing must
+		// fail), so the label only says which causes a failure may name
+		if !first {
+			// a possibly-valid text must not overwrite the value an earlier, certain defect relies on
+			return d, false
+		}
+		vs := plainVars(c, "number", "monetary", "portion")
+		if len(vs) == 0 {
+			// declare one and use it nowhere: parsing happens regardless of use
+			t := core.Pick(r, []string{"number", "monetary", "portion"})
+			c.Prog.Vars = append(c.Prog.Vars, gen.VarDecl{Type: t, Name: "zz_fz"})
+			c.In.Vars["zz_fz"] = fuzzText(r, t)
+		} else {
+			v := c.Prog.Vars[vs[r.IntN(len(vs))]]
+			c.In.Vars[v.Name] = fuzzText(r, v.Type)
+		}
+		d.Certain = false
+		d.Allowed = []string{"wrong-type", "invalid-portion", "negative-amount", "mismatched-asset", "insufficient-funds", "invalid-portion"}
 	case "omit-variable":
 		vs := plainVars(c)
 		if len(vs) == 0 {
